@@ -399,6 +399,7 @@ type StickyRun struct {
 	Err     bool        `json:"err"`
 	Panic   string      `json:"panic,omitempty"`
 	Hang    bool        `json:"hang,omitempty"`
+	NPicks  int         `json:"npicks,omitempty"` // reverse-pair redirections reported (all of them, also when the oracle list is cut)
 	Plan    []PlanEntry `json:"plan"`
 	RawPlan sarama.BalanceStrategyPlan `json:"-"`
 	Other   map[string]int `json:"other,omitempty"`
@@ -468,6 +469,7 @@ func RunSticky(in Input) StickyRun {
 	o.PlanUnvisited = tps(tr.PlanUnvisited)
 	o.SortUnassigned = tps(tr.SortUnassigned)
 	o.Picks = tps(tr.Picks)
+	run.NPicks = len(o.Picks)
 	if run.Hang && len(o.Picks) > 200 {
 		o.Picks = o.Picks[:200] // the abandoned call keeps picking; the model falls back to its canonical choice afterwards
 	}
